@@ -418,6 +418,7 @@ pub fn cmd_fwdrec(args: &Args) -> i32 {
             }
         }
         writeln!(f, "{}", p).unwrap();
+        f.flush().unwrap(); // the parent watches the file grow: a program whose execute does not return shows as no progress
     }
     println!("{}", json!({"programs": n, "executes": execs, "firings": firings, "errors": errs}));
     0
